@@ -148,7 +148,10 @@ pub enum Instruction {
 
     Resume,
     ResumeNext,
-    ResumeLabel(AddressOrLabel),
+    /// Resumes at the given label of the main module. Carries the number of FOR loop bodies
+    /// and SELECT CASE blocks that enclose the label, so that the register stack and the
+    /// value stack can be brought to the state that place expects.
+    ResumeLabel(AddressOrLabel, usize, usize),
 
     BuiltInSub(BuiltInSub),
     BuiltInFunction(BuiltInFunction),
